@@ -66,6 +66,11 @@ CHECKS["C12"] = ("exploration",
          "4.C12", "generated value sets with prefix chains (seeded proptest choice streams) x enumerated queries per grammar x reference-interpreter / bounds oracle against bash execution",
          "trusted: reference interpreter; the cursor-word oracle is a lower/upper bound because the statement does not say whether the typed value itself is offered; ~700 completions per quick run (bash throughput limit)")
 
+CHECKS["C17"] = ("exploration",
+         "Generated grammars whose commands are logging probes (fixed output incl. candidates with blanks, tab-separated descriptions, an empty list) at top level, inside words, under [], ..., |, ||, through definitions, executed in bash with generated command lines (plus glob-looking words and candidates with blanks as words): COMPREPLY equals the reference interpreter's answer, every logged invocation is one the grammar allows at that point with the documented arguments, every command expected at the cursor up to the winning level was invoked, argc is 2.",
+         "4.C17", "generated grammars with probe commands x generated command lines (seeded proptest choice streams) x reference-interpreter oracle + invocation-log oracle against bash execution",
+         "trusted: reference interpreter, probe function and driver; the region of the known finding 'word skipped before a command' is classified and counted, truncated words (C01's other known finding) are avoided and counted; ~600 completions per quick run")
+
 NOT_YET = {
 }
 
